@@ -268,9 +268,11 @@ def make_input(ctx, name, comps, nrows, str_alphabet=None, int_bound=None, str_m
                 ctx.assume.append(z3.And(v >= _cal.jan1(z3.IntVal(ymin)), v < _cal.jan1(z3.IntVal(ymax + 1))))
                 continue
             if k == "int" and int_bound is not None:
-                ctx.assume.append(z3.And(v >= -int_bound, v <= int_bound))
+                # int_bound 2**63 = the whole BIGINT range (asymmetric)
+                ctx.assume.append(z3.And(v >= -int_bound, v <= (int_bound - 1 if int_bound == 2 ** 63 else int_bound)))
             if k == "real" and int_bound is not None:
-                ctx.assume.append(z3.And(v >= -int_bound, v <= int_bound))
+                rb = min(int_bound, 2 ** 20)
+                ctx.assume.append(z3.And(v >= -rb, v <= rb))
             if k == "str":
                 alpha = str_alphabet or ("a", "c")
                 ctx.assume.append(z3.InRe(v, z3.Star(z3.Range(alpha[0], alpha[1]))))
